@@ -54,9 +54,15 @@ enum Status {
     ///
     /// Stop execution early if breakpoint or `HALT` is reached.
     ///
-    /// Return address is necessary to support nested subroutine calls, and call depth to support
-    /// recursive ones (which reach the return address before the stepped-over call has returned).
-    StepOver { return_addr: u16, depth: u16 },
+    /// Return address is necessary to support nested subroutine calls. `depth` counts the open
+    /// invocations of the stepped call instruction itself, to support recursive ones (which reach
+    /// the return address before the stepped-over call has returned); `by_jump` tells whether the
+    /// previous instruction transferred control (as opposed to falling through or branching).
+    StepOver {
+        return_addr: u16,
+        depth: u64,
+        by_jump: bool,
+    },
     /// Execute `count` instructions.
     ///
     /// Stop execution early if breakpoint or `HALT` is reached.
@@ -208,28 +214,40 @@ impl Debugger {
                     }
                 }
 
-                Status::StepOver { return_addr, depth } => {
-                    if state.pc() == *return_addr && *depth == 0 {
-                        // If subroutine was excecuted (for `JSR|JSRR|CALL` + `RET`|`RETS`)
-                        // As opposed to a single instruction
-                        if self.instruction_count > 1 {
-                            dprintln!(
-                                Alternate,
-                                Warning,
-                                "Reached::SubroutineEnd",
-                                ["Reached end of subroutine. Pausing execution."],
-                            );
-                        }
-                        self.status = Status::WaitForAction;
-                        continue;
-                    }
-                    // Track the depth of the instruction about to be executed
-                    let next = state.mem(state.pc());
-                    if is_call(next) {
-                        *depth = depth.saturating_add(1);
-                    } else if SignificantInstr::try_from(next) == Ok(SignificantInstr::Return) {
+                Status::StepOver {
+                    return_addr,
+                    depth,
+                    by_jump,
+                } => {
+                    // Every execution of the stepped call instruction opens an invocation, which
+                    // ends when control is transferred back to the following address - however the
+                    // callee does that (`RET`, `RETS`, `JMP` through another register) and
+                    // whatever other calls and returns it performs in between
+                    let call_addr = return_addr.wrapping_sub(1);
+                    if state.pc() == *return_addr && *by_jump {
                         *depth = depth.saturating_sub(1);
+                        if *depth == 0 {
+                            if self.instruction_count > 1 {
+                                dprintln!(
+                                    Alternate,
+                                    Warning,
+                                    "Reached::SubroutineEnd",
+                                    ["Reached end of subroutine. Pausing execution."],
+                                );
+                            }
+                            self.status = Status::WaitForAction;
+                            continue;
+                        }
                     }
+                    let next = state.mem(state.pc());
+                    if state.pc() == call_addr && is_call(next) {
+                        *depth = depth.saturating_add(1);
+                    }
+                    // Arriving at the following address by falling through or by a branch (a
+                    // conditional call which was skipped in a deeper invocation) is not a return
+                    *by_jump = next >> 12 == 0xC
+                        || is_call(next)
+                        || SignificantInstr::try_from(next) == Ok(SignificantInstr::Return);
                     return Action::Proceed;
                 }
 
@@ -379,6 +397,7 @@ impl Debugger {
                     Status::StepOver {
                         return_addr: state.pc().wrapping_add(1),
                         depth: 0,
+                        by_jump: false,
                     }
                 } else {
                     Status::StepInto { count: 0 }
